@@ -41,9 +41,11 @@ theorem evalNode_keeps (env : Env) (ef : Node → St → Res × St) (hef : Calle
   unfold evalNode
   split
   · split
-    · exact Keeps.of_sameCache (sameCache_hitEdge s n)
+    · split
+      · exact Keeps.of_sameCache (sameCache_hitEdge s n)
+      · exact (hef n s).trans (Keeps.of_sameCache (keepExc_excOnly s _).sameCache)
     · exact (hef n s).trans (Keeps.of_sameCache (keepExc_excOnly s _).sameCache)
-  · exact (hef n s).trans (Keeps.of_sameCache (keepExc_excOnly s _).sameCache)
+  · exact Keeps.of_sameCache (sameCache_newExc s)
 
 theorem runN_keeps (env : Env) : ∀ d, CalleeKeeps (runN env d) := by
   intro d
